@@ -3,6 +3,7 @@ package spoksim
 import (
 	"encoding/json"
 	"fmt"
+	"os"
 	"path/filepath"
 	"strings"
 )
@@ -57,7 +58,7 @@ func (varsScen) Gen(r *Rng, cfg GenConfig) any {
 		case k < 6:
 			v.Kind, v.Args = "str", []string{vaValue(r)}
 		case k < 8:
-			v.Kind, v.Args = "join", []string{"{PROJ}", Pick(r, []string{"bin", "a/../b", "./x", "out/", "d//e"})}
+			v.Kind, v.Args = "join", []string{"{PROJ}", Pick(r, []string{"bin", "a/../b", "./x", "out/", "d//e", "link", "link/data.txt", "real/data.txt"})}
 			if r.Chance(1, 2) {
 				v.Args = append(v.Args, Pick(r, []string{"app", "..", "f.txt"}))
 			}
@@ -147,6 +148,9 @@ func (varsScen) Exec(w *World, cc any, prop string) *Result {
 	text := strings.ReplaceAll(p.Render(), "{PROJ}", proj)
 	writeFile(filepath.Join(proj, "spokfile"), text)
 	writeFile(filepath.Join(w.Ctl, "AAAAAA_0"), "true\n")
+	// an existing directory reached through a symbolic link: join() is a lexical operation
+	writeFile(filepath.Join(proj, "real", "data.txt"), "x")
+	must(os.Symlink("real", filepath.Join(proj, "link")))
 	if len(c.DotEnv) > 0 {
 		var b strings.Builder
 		for _, k := range sortedKeys(c.DotEnv) {
